@@ -21,7 +21,27 @@ def T(prop, id, file, old, new, edits=None):
 
 
 def entries() -> List[dict]:
+    _load_extra()
     return list(_E)
+
+
+_EXTRA_LOADED = False
+
+
+def _load_extra():
+    """selftest/extra/cNN.py: additional entries kept per property (same M/T helpers)."""
+    global _EXTRA_LOADED
+    if _EXTRA_LOADED:
+        return
+    _EXTRA_LOADED = True
+    import importlib
+    import os
+
+    d = os.path.join(os.path.dirname(os.path.abspath(__file__)), "extra")
+    if os.path.isdir(d):
+        for fn in sorted(os.listdir(d)):
+            if fn.endswith(".py") and fn != "__init__.py":
+                importlib.import_module(f"selftest.extra.{fn[:-3]}")
 
 
 # =============================================================================== C05
